@@ -1,7 +1,6 @@
 (* Proofs for C15: the environ built by the model equals the reference mapping of Spec/EnvSpec.v. *)
 From Coq Require Import List NArith ZArith Bool Lia Arith.
-From GV Require Import Base.Enc Base.Dec Gen.GenEnv Model.EnvStr Model.Environ Spec.EnvSpec
-                       Proof.EnvStrProofs Proof.EnvC08Proofs.
+From GV Require Import Base.Enc Base.Dec Gen.GenEnv Model.EnvStr Model.Environ Spec.EnvSpec Proof.EnvStrProofs Proof.EnvC08Proofs.
 Import ListNotations.
 Local Open Scope N_scope.
 
